@@ -54,12 +54,12 @@ fn c04_prim_mac_all_words() {
     kani::cover!(hi == Word::MAX);
 }
 
-//@ prop=C04,C03,C11 tier=quick profile=k64 funcs="primitives::mac" bound="all a,c,carry words; multiplier b shaped S(5) (values within 32 of 0 or 2^64): carries out of the low word and into the high word for every addend" free_bits=198
+//@ prop=C04,C03,C11 tier=quick profile=k64 funcs="primitives::mac" bound="all a,carry words; multiplier and multiplicand shaped S(5) (values within 32 of 0 or 2^64): carries out of the low word and into the high word for every addend" free_bits=140
 #[kani::proof]
 fn c04_prim_mac_shaped_b() {
     let a: Word = kani::any();
     let b: Word = shaped_word(5);
-    let c: Word = kani::any();
+    let c: Word = shaped_word(5);
     let k: Word = kani::any();
     let (lo, hi) = crate::primitives::mac(a, b, c, k);
     let p: u128 = (b as u128) * (c as u128);
@@ -71,7 +71,7 @@ fn c04_prim_mac_shaped_b() {
     kani::cover!(b == Word::MAX && c == Word::MAX && a == Word::MAX && k == Word::MAX);
 }
 
-//@ prop=C03,C11 tier=quick profile=k64 funcs="primitives::mul_wide,primitives::mulhilo" bound="one word each, all values; hardware product shared with the oracle" free_bits=128
+//@ prop=C03,C11 tier=thorough profile=k64 funcs="primitives::mul_wide,primitives::mulhilo" bound="one word each, all values; hardware product shared with the oracle" free_bits=128
 #[kani::proof]
 fn c04_prim_mul_wide_all_words() {
     let b: Word = kani::any();
